@@ -14,7 +14,7 @@ func init() {
 	register("C06",
 		"Structural necessary conditions of C06 decided from /repo's SSA: (algebra) the Filter methods of the union/intersection/inverse/all/none helpers and Include/Exclude.Combine followed by Filter are interpreted over all assignments of the opaque atoms `f matches` and must equal a∨b, a∧b, ¬a, true, false, f | g∨f, ¬f | g∧¬f; Inverted swaps the two combiners — from these identities the last-matching-rule fold follows by induction on the option list; (fold) at every site that extends a filter the first Combine argument is the current value of the very field the result is stored to; (default) Finish turns a nil top-level filter into all-references iff its parameter is true, and the only caller passes len(flags.Args())==0; (flags) the include/exclude/…-regexp and the five --X/--no-X pairs are registered with the stated polarity, pattern and regexp bit; (prefix) the prefix filter's truth table is HasPrefix ∧ (ends-in-'/' ∨ equal length ∨ next byte '/') with the index evaluated only when in bounds; (anchor) a user pattern is wrapped in a group before being anchored; (flex) /…/, @…, else-prefix dispatch with in-bounds slicing. Not decided: regexp matching itself, pflag's in-order Set calls.",
 		[]string{"spf13/pflag calls Value.Set in command-line order", "regexp semantics", "induction on the option list (on paper, DESIGN.md C06)"},
-		ruleC06Algebra, ruleC06Fold, ruleC06Default, ruleC06Flags, ruleC06Prefix, ruleC06Anchor, ruleC06Flex, ruleC06RefGroup, ruleC06ImmutableOptions)
+		ruleC06Algebra, ruleC06Fold, ruleC06Default, ruleC06Flags, ruleC06Prefix, ruleC06Anchor, ruleC06Flex, ruleC06RefGroup, ruleC06ImmutableOptions, ruleC06LastDot)
 }
 
 // combineCalls lists every call of a Combiner's Combine method.
@@ -1006,3 +1006,49 @@ func ruleC06ImmutableOptions(c *Ctx) {
 		c.violate("C06.fold", "immutable-option", token.NoPos, "", "no methods of the registered selection-option values found")
 	}
 }
+
+// lastDotRule: a refgroup symbol `a.b.c` has the parent `a.b`, and the
+// gitconfig key `a.b.c.include` belongs to group `a.b.c`: wherever package
+// refopts splits at '.', it must split at the LAST dot. A first-dot split
+// attaches a third-level group to its top-most ancestor (skipping the
+// intermediate group's filter) and misreads keys of nested groups.
+func lastDotRule(c *Ctx, rule string) {
+	n := 0
+	for _, f := range c.ModFns {
+		if pkgOf(f) != modPath+"/internal/refopts" {
+			continue
+		}
+		allInstrs(f, func(in ssa.Instruction) {
+			call, ok := in.(*ssa.Call)
+			if !ok {
+				return
+			}
+			sep, ok := c.sepOfIndexCall(call)
+			q := calleeQ(&call.Call)
+			if !ok {
+				// Split/SplitN on "." is a first-to-last split as well
+				if (strings.HasSuffix(q, ".Split") || strings.HasSuffix(q, ".SplitN") || strings.HasSuffix(q, ".Fields")) && len(call.Call.Args) > 1 {
+					if s, isC := constStr(call.Call.Args[1]); isC && s == "." {
+						n++
+						c.undecided(rule, "last-dot@"+fnName(f), call.Pos(), fnName(f), "a refgroup symbol or key is split at every '.': cannot tell that the parent is the part before the last one")
+					}
+				}
+				return
+			}
+			if sep != '.' {
+				return
+			}
+			n++
+			if strings.Contains(q, ".Last") {
+				c.hold(rule, "last-dot@"+fnName(f), call.Pos(), "split at the last '.'")
+			} else {
+				c.violate(rule, "last-dot@"+fnName(f), call.Pos(), fnName(f), "a refgroup symbol / key is split at its FIRST '.' ("+q+"): the parent of a.b.c must be a.b, and the key a.b.c.include belongs to group a.b.c; nested groups would be attached to the wrong parent, skipping the intermediate group's rules")
+			}
+		})
+	}
+	if n < 2 {
+		c.notDecided(rule, "last-dot", token.NoPos, fmt.Sprintf("only %d searches for '.' found in package refopts (parent symbol and key/field split expected): the hierarchy is derived another way", n))
+	}
+}
+
+func ruleC06LastDot(c *Ctx) { lastDotRule(c, "C06.refgroup") }
